@@ -107,10 +107,11 @@ class Lexer:
         # .thing
         self.dot_property_pattern = rf"\.(?P<G_PROP>{self.key_pattern})"
 
+        # A sign must be followed by at least one digit.
         self.slice_list_pattern = (
-            r"(?P<G_LSLICE_START>\-?\d*)\s*"
-            r":\s*(?P<G_LSLICE_STOP>\-?\d*)\s*"
-            r"(?::\s*(?P<G_LSLICE_STEP>\-?\d*))?"
+            r"(?P<G_LSLICE_START>(?:\-?\d+)?)\s*"
+            r":\s*(?P<G_LSLICE_STOP>(?:\-?\d+)?)\s*"
+            r"(?::\s*(?P<G_LSLICE_STEP>(?:\-?\d+)?))?"
         )
 
         # /pattern/ or /pattern/flags
